@@ -177,3 +177,57 @@ for nm, fn, label in (("members", lambda c, S, k: c.union(sel(S.Ein, k), sel(S.E
     s.req("dtype-dict-when-all", lambda c, A: z3.Implies(A.e.term == c.NONE, z3.Function("is_class_dict", c.Id, z3.BoolSort())(A.dtype.term)), PROPS)
     s.ens(label, PROPS, lambda c, A, R, fn=fn, nm=nm: _one_or_all(c, A, R, A.e.term, A.S0.ek, lambda k: fn(c, A.S0, k), nm))
     s.exc("IDNotFound", "not-an-edge", PROPS, lambda c, A, R: z3.And(A.e.term != c.NONE, z3.Not(sel(A.S0.ek, A.e.term))))
+
+
+# ------------------------------------------------------------------ set functions built on from_view / filterby (both assumed, pyvc/views_model.py)
+def _content(c, R, what):
+    from pyvc.values import VVal
+    _shape(isinstance(R.result, VVal), what)
+    return c.content(R.result.term)
+
+
+def _content_is(c, R, what, pred):
+    """Element-wise statement (no array extensionality needed): x is in the returned sub-view iff pred(x)."""
+    S = _content(c, R, what)
+    return c.forall(["id"], lambda x: sel(S, x) == pred(x))
+
+
+def _iter_pre(c, t):
+    return z3.And(c.iterable(t), z3.Not(c.one_shot(t)), c.elems_hashable(t))
+
+
+s = view_contract("IDView.lookup", "view:nodes:H", [("neighbors", "val")], "nodes")
+s.variants = [{"self": "view:nodes:H"}, {"self": "view:edges:H"}]
+s.req("iterable-of-ids", lambda c, A: _iter_pre(c, A.neighbors.term), PROPS)
+s.ens("ids-whose-set-equals-the-argument", PROPS + ("C09",), lambda c, A, R: _content_is(c, R, "lookup",
+    lambda i: z3.And(sel(_own(A.S0, A.view_which["self"])[0], i), sel(_own(A.S0, A.view_which["self"])[1], i) == c.content(A.neighbors.term))))
+s.notes = "modulo the assumed from_view model (result = sub-view with exactly the ids of the computed bunch)"
+
+
+def _iso_loop(c, A, K):
+    S = A.S0
+    acc = K.ex.tset(K.L("nodes_in_edges"))
+    return [("inv", PROPS, z3.And(
+        same_state(c, S, K.S), K.content == S.ek,
+        c.forall(["id", "id"], lambda n, e: z3.Implies(z3.And(sel(K.done, e), c.card(sel(S.E, e)) != 1, sel(S.E, e, n)), sel(acc, n))),
+        c.forall(["id"], lambda n: z3.Implies(sel(acc, n), c.exists(["id"], lambda e: z3.And(sel(K.done, e), sel(S.ek, e), c.card(sel(S.E, e)) != 1, sel(S.E, e, n)))))))]
+
+
+s = view_contract("NodeView.isolates", "view:nodes:H", [("ignore_singletons", "bool", False)], "nodes")
+s.req("UInv", lambda c, A: UInv(c, A.S0), PROPS)
+s.loop("for members in self._bi_id_dict.values()", _iso_loop)
+_isoC = lambda c, R: _content(c, R, "isolates")
+s.ens("listed-nodes-have-no-counting-edge", PROPS + ("C09",), lambda c, A, R: c.forall(["id", "id"], lambda n, e: z3.Implies(
+    z3.And(sel(_isoC(c, R), n), sel(A.S0.ek, e), sel(A.S0.E, e, n)), z3.And(A.ignore_singletons.term, c.card(sel(A.S0.E, e)) == 1))))
+s.ens("listed-are-nodes", PROPS, lambda c, A, R: c.forall(["id"], lambda n: z3.Implies(sel(_isoC(c, R), n), sel(A.S0.nk, n))))
+s.ens("unlisted-nodes-have-a-counting-edge", PROPS + ("C09",), lambda c, A, R: c.forall(["id"], lambda n: z3.Implies(
+    z3.And(sel(A.S0.nk, n), z3.Not(sel(_isoC(c, R), n))), c.exists(["id"], lambda e: z3.And(
+        sel(A.S0.ek, e), sel(A.S0.E, e, n), z3.Or(z3.Not(A.ignore_singletons.term), c.card(sel(A.S0.E, e)) != 1))))))
+s.notes = "ignore_singletons=True: loop invariant over the member sets; False: through the assumed filterby('degree', 0) model"
+
+s = view_contract("EdgeView.singletons", "view:edges:H", [], "edges")
+s.ens("edges-of-size-one", PROPS, lambda c, A, R: _content_is(c, R, "singletons", lambda e: z3.And(sel(A.S0.ek, e), c.card(sel(A.S0.E, e)) == 1)))
+s.notes = "one-line wrapper of the assumed filterby('size', 1) model"
+s = view_contract("EdgeView.empty", "view:edges:H", [], "edges")
+s.ens("edges-of-size-zero", PROPS, lambda c, A, R: _content_is(c, R, "empty", lambda e: z3.And(sel(A.S0.ek, e), sel(A.S0.E, e) == c.EMPTY)))
+s.notes = "one-line wrapper of the assumed filterby('size', 0) model"
